@@ -436,6 +436,19 @@ def run_history(seed, k, ncommits):
     return out
 
 
+def run_history_safe(seed, k, ncommits):
+    """A hung or crashed subprocess of the runner (seen under heavy machine load) is not a C19
+    verdict: retry the history once, then report it as skipped."""
+    err = None
+    for _ in range(2):
+        try:
+            return run_history(seed, k, ncommits)
+        except Exception as e:  # subprocess.TimeoutExpired, OSError, ...
+            err = e
+    return {"seed": seed, "k": k, "commits": 0, "fails": [], "reqs": [], "tags": ["history:skipped"], "cmds": 0,
+            "skipped": repr(err)[:600]}
+
+
 def run_histories(seed, n, ncommits, workers=4):
     with ThreadPoolExecutor(max_workers=workers) as ex:
-        return list(ex.map(lambda k: run_history(seed, k, ncommits), range(n)))
+        return list(ex.map(lambda k: run_history_safe(seed, k, ncommits), range(n)))
